@@ -55,6 +55,8 @@ def mk(rng, tier):
         inner = rand_shape(rng, 1, 2)
         case['outer'] = list(outer)
         case['x'] = rand_coeffs(rng, (int(np.prod(outer)), D, P) + inner, -2, 2)
+        if rng.random() < 0.3:
+            case['x'] = case['x'] + 1j * rand_coeffs(rng, (int(np.prod(outer)), D, P) + inner, -2, 2)      # complex elements
     else:
         r1, r2, c1, c2 = [rng.randint(1, 2) for _ in range(4)]
         case['blocks'] = [[rand_coeffs(rng, (D, P, r, c), -2, 2) for c in (c1, c2)] for r in (r1, r2)]
